@@ -93,7 +93,7 @@ uint32_t adfCountFreeBlocks ( const struct AdfVolume * const vol )
     int j;
 
     uint32_t freeBlocks = 0L;
-    for(j=vol->firstBlock+2; j<=(vol->lastBlock - vol->firstBlock); j++)
+    for(j=2; j<=(vol->lastBlock - vol->firstBlock); j++)
         if ( adfIsBlockFree(vol,j) )
             freeBlocks++;
 
@@ -305,7 +305,7 @@ RETCODE adfCreateBitmap ( struct AdfVolume * const vol )
     if ( rc != RC_OK )
         return rc;
 
-    for ( int i = vol->firstBlock + 2 ; i <= (vol->lastBlock - vol->firstBlock) ; i++ )
+    for ( int i = 2 ; i <= (vol->lastBlock - vol->firstBlock) ; i++ )
         adfSetBlockFree(vol, i);
 
     return rc;
